@@ -769,16 +769,20 @@ def oracle_names(inp, ptx, res, prefix="SUPER_", single_hap=True, bpt_s=None):
             if okn and not single_hap and bpt_s is not None:
                 # multi-haplotype map: the haplotype of the first painted, un-named Pretext scaffold that carries sequence decides
                 need = 1 + math.floor(Fraction(bpt_s))
-                hap_case, first_hap = {}, None
+                hap_case, first_hap, decided = {}, None, False
                 for ps in ptx:
                     tags = {t for f in ps["rows"] if f["t"] == "F" for t in f["tags"]}
                     hs = [t for t in tags if t not in KNOWN and not is_chr_tag(t)]
                     for h in hs:
                         hap_case.setdefault(h.lower(), h)
-                    if first_hap is None and "Painted" in tags and not any(is_chr_tag(t) for t in tags) and "Primary" not in tags:
+                    if first_hap is None and not decided and "Painted" in tags and not any(is_chr_tag(t) for t in tags) and "Primary" not in tags:
                         main_pieces = [f for f in ps["rows"] if f["t"] == "F" and not any(x in f["tags"] for x in ("FalseDuplicate", "Haplotig", "Contaminant", "Unloc"))]
-                        if any(contig_overlap(inp, f) >= 3 * need for f in main_pieces) and len(hs) == 1:
-                            first_hap = hap_case[hs[0].lower()]
+                        ov = max([contig_overlap(inp, f) for f in main_pieces] or [0])
+                        if ov >= 3 * need and len(hs) == 1:
+                            first_hap = hap_case[hs[0].lower()]     # certainly yields the first autosome
+                            decided = True
+                        elif ov > 0 or len(hs) != 1:
+                            decided = True                           # may or may not survive trimming: which haplotype is first is not certain → no assertion
                 first_hap_asm = first_hap is not None and a["key"] == first_hap and all(re.fullmatch(re.escape(prefix) + r"\d+", s["name"]) for s in mains)
             if okn and (single_hap or first_hap_asm):
                 if nums != list(range(1, len(nums) + 1)):
@@ -896,6 +900,43 @@ def make_case(rng, kind, **kw):
         if len(inp) > 1:
             ptx.append(conv.jscaffold("Scaffold_3", [conv.jfrag(0, "s2", 1, (slen(inp[1]["rows"]) // w) * w, 1, [])]))
         return {"kind": "script", "input": inp, "ptx": ptx, "bpt": bpt}
+    if kind == "nullabsent":
+        # unedited map at a coarse resolution: small multi-contig scaffolds (abutting contigs, single and double gaps) are shorter
+        # than a texel and absent from the map; they must come back exactly as they were
+        bpt = rng.choice(["100", "2326.116333", "37.25"])
+        beta = Fraction(bpt)
+        inp, oid = [], 0
+        big = rand_input(rng, nscaf=2, revp=revp)
+        for s_ in big:
+            last = s_["rows"][-1]
+            last["end"] = last["start"] + math.ceil(beta) * rng.randint(1, 3) + rng.randint(0, 9)
+        tiny = []
+        for j in range(rng.randint(1, 3)):
+            rows, budget = [], max(3, math.floor(beta) - 1)
+            for r in range(rng.randint(1, 4)):
+                if rows:
+                    k = rng.random()
+                    if k < 0.4:
+                        rows.append(conv.jgap(1))
+                    elif k < 0.55 and budget > 12:
+                        rows += [conv.jgap(1), conv.jgap(2, "contig")]
+                ln = rng.randint(1, max(1, min(6, budget // 4)))
+                rows.append(conv.jfrag(0, "x", 1, ln, -1 if rng.random() < revp else 1))
+            while slen(rows) >= math.floor(beta):
+                rows = rows[:-1]
+                while rows and rows[-1]["t"] == "G":
+                    rows.pop()
+            if rows:
+                tiny.append(conv.jscaffold(f"t{j+1}", rows))
+        inp = big + tiny
+        rng.shuffle(inp)
+        for s_ in inp:
+            for r in s_["rows"]:
+                if r["t"] == "F":
+                    r["oid"] = oid; r["name"] = f"c{oid+1}"; oid += 1
+        ptx = null_script(rng, inp, bpt, painted=False)
+        ptx = [ps for ps in ptx if not any(f["t"] == "F" and f["name"].startswith("t") for f in ps["rows"])]
+        return {"kind": "null", "input": inp, "ptx": ptx, "bpt": bpt}
     if kind in ("null", "nullp"):
         inp = rand_input(rng, revp=revp, hap_names=kw.get("hap_names", False))
         # precondition of C08: last contig of each scaffold at least one texel long → enlarge it if needed
